@@ -37,7 +37,7 @@ def with_layout(torch, x, layout):
 class C14(Prop):
     id = 'C14'
     title = 'Triangular packing of symmetric matrices is lossless'
-    rule = ('Exhaustive part ("pack"): every n in 1..256 (quick) / 1..1536 (thorough) x dtypes {float64,float32,bfloat16,float16} x layouts '
+    rule = ('Exhaustive part ("pack"): every n in 1..256 plus 13 larger sizes up to 1025 and n=5793, whose packed triangle exceeds 2^24 entries (quick) / 1..1536 plus 8 sizes up to 8193 (thorough; above 2048 float32 contiguous only) x dtypes {float64,float32,bfloat16,float16} x layouts '
             '{contiguous, transposed (column-major) view, strided slice of a larger matrix} with position-revealing symmetric contents; '
             'fill_triu(shape, get_triu(x)) == x bit-exactly, get_triu has n(n+1)/2 elements and (n <= 48) equals the row-major upper triangle '
             'from a Python double loop; the input is left unmodified. Communication part ("comm"): W in {2,3}, n in 1..24, dtype, schedule '
@@ -77,7 +77,9 @@ class C14(Prop):
         sizes = list(range(1, hi + 1))
         if tier == 'quick':
             # a sparse sample of larger sizes (typical factor sizes of real layers) on top of the complete range 1..256
-            sizes += [257, 300, 301, 320, 384, 500, 512, 513, 768, 1000, 1024, 1025]
+            sizes += [257, 300, 301, 320, 384, 500, 512, 513, 768, 1000, 1024, 1025, 5793]
+        else:
+            sizes += [2048, 4096, 4097, 5792, 5793, 5794, 6145, 8193]
         for n in sizes:
             if n % nshards == shard:
                 yield {'kind': 'pack', 'n': n}
@@ -97,10 +99,12 @@ class C14(Prop):
         from kfac.distributed import fill_triu, get_triu
         n = case['n']
         inner = 0
-        for dn in DTYPES:
+        # very large matrices (packed triangle beyond 2^24 entries, where float32 index arithmetic stops being exact): one dtype, one layout
+        dtypes, layouts = (DTYPES, LAYOUTS) if n <= 2048 else (['float32'], LAYOUTS[:1])
+        for dn in dtypes:
             dtype = getattr(torch, dn)
             base = sym_matrix(torch, n, dtype)
-            for layout in LAYOUTS:
+            for layout in layouts:
                 x = with_layout(torch, base, layout)
                 keep = x.clone()
                 t = get_triu(x)
